@@ -155,6 +155,24 @@ def replay_gate(eng, vc, spec, consts, int_names, base_query, max_models=6, neut
     tried = []
     extra = []
     s_model = eng.last.model()
+    # candidate assignments supplied by the obligation (e.g. CPython's real numeric-hash collisions), if consistent with the path
+    real_names = [n for n, c in consts.items() if z3.is_real(c)]
+    for cand in vc.info.get("candidates", []):
+        if len(real_names) < len(cand):
+            break
+        pin = [consts[n] == v for n, v in zip(real_names, cand)]
+        if eng.check(base_query, *pin, timeout=min(eng.timeout, 3000)) == "sat":
+            m2 = eng.last.model()
+            try:
+                fr = model_inputs(m2, consts)
+                enc, val = concretise(fr, set(int_names) | {n for n, v in zip(real_names, cand) if isinstance(v, int)})
+                outs = [decode_out(o) for o in run_concrete(spec, enc)]
+                why = vc.judge(val, outs)
+                if why:
+                    return "violation", {"attributed": None, "inputs": enc, "inputs_rational": {k: str(v) for k, v in fr.items()},
+                                         "observed": [{k: v for k, v in o.items() if k != "mp"} for o in outs], "why": why, "attempts": 0}
+            except Exception:  # noqa
+                pass
     for attempt in range(max_models):
         try:
             fr = model_inputs(s_model, consts)
@@ -234,6 +252,12 @@ def run_job(args):
                     continue
                 r = eng.check(vc.query)
                 rec = None
+                if r == "sat" and vc.info.get("concrete_only"):
+                    # a supplementary obligation that only the un-instrumented interpreter can decide (e.g. real set/dict
+                    # membership): run it once at a model of the path condition; counted under decided_without_final_query
+                    status, rec = replay_gate(eng, vc, spec, ctx.consts, ctx.int_names, vc.query, max_models=1, neutralisers=neutralisers)
+                    recs.append((vc, "violation" if status == "violation" else "concrete-ok", rec))
+                    continue
                 if r == "sat":
                     status, rec = replay_gate(eng, vc, spec, ctx.consts, ctx.int_names, vc.query, neutralisers=neutralisers)
                     r = status
@@ -275,7 +299,10 @@ def run_job(args):
                     into["vc_names"][vc.name] = into["vc_names"].get(vc.name, 0) + 1
                     if vc.query is None:
                         into["numeric_vcs"] += 1
-                    if r == "unsat":
+                    if r == "concrete-ok":
+                        into["unsat"] += 1
+                        into["numeric_vcs"] += 1
+                    elif r == "unsat":
                         into["unsat"] += 1
                     elif r == "unknown":
                         into["unknown"] += 1
